@@ -187,6 +187,15 @@ def string_matcher(facts, fn, folds=None, info=None, adt=None):
         if lf.kind != "return":
             continue
         kind, payload = result_variant(lf.ret())
+        if kind is None:
+            # the result of another call handed back as it is (the function calling itself on a piece of its input, a
+            # helper): it may accept, and not by one of the comparisons seen here
+            r_ = lf.ret()
+            while isinstance(r_, tuple) and r_ and r_[0] in ("ref", "deref"):
+                r_ = r_[1]
+            if isinstance(r_, tuple) and r_ and r_[0] == "call" and not r_[1].endswith(("from_residual", "from_output")):
+                other_ok.append(lf)
+            continue
         if kind != "Ok":
             continue
         hit = None
